@@ -81,10 +81,40 @@ def command_pass(ctx):
         ctx.violation('server.commands', 'session with command events differs from the reference: ' + srv.script_line(cases[k])[:300],
                       {'harness_line': srv.script_line(cases[k]), 'impl': impl[k], 'model': both[k][0], 'spec': both[k][1]}, no_failing_input=nfi)
     cut = sum(1 for c, o in zip(cases, norm) if o[2] == 'Shutdown' and '@block' in c[3])
-    ok = ends.get('Shutdown', 0) >= 10 and ends.get('open', 0) >= 10 and ends.get('blocked', 0) >= 3 and cut >= 5
+    ok = ends.get('Shutdown', 0) >= 10 and ends.get('open', 0) >= 10 and ends.get('blocked', 0) >= 3 and cut >= 5 and ends.get('Io', 0) >= 5
     ctx.oblige('command-scripts-reach-expected-classes', ok, f'{ends} shutdown-after-block={cut}')
-    return {'command-scripts': len(cases), 'command-scripts:ended-Shutdown': ends.get('Shutdown', 0), 'command-scripts:left-blocked': ends.get('blocked', 0),
+    return {'command-scripts': len(cases), 'command-scripts:ended-Shutdown': ends.get('Shutdown', 0), 'command-scripts:left-blocked': ends.get('blocked', 0), 'command-scripts:ended-by-write-error': ends.get('Io', 0),
             'command-scripts:shutdown-in-a-script-with-blocked-writes': cut}
+
+
+def rtu_task_pass(ctx):
+    """RtuServerTask::run on a pty (real time, order only): sessions ended by hang-up / bad CRC, waits with
+    decode level changes, a request sent before the wait is over (must not be answered until it is),
+    failed open attempts, Shutdown / dropped handle while open and while waiting - against the loop of
+    Model/RtuServerLoop.v over the model and over the reference server"""
+    r = ctx.rng
+    scs = [srv.gen_rtu_scenario(r) for _ in range(12 if ctx.quick() else 64)]
+    impl, norm, both = srv.run_rtu_scenarios(ctx, scs)
+    bad, early = [], []
+    for k, (o, b) in enumerate(zip(norm, both)):
+        sp = srv.split3(b[1])
+        mo = srv.split3(b[0]) if b[0] is not None else sp
+        if (o[0], o[1], o[2]) != (sp[0], sp[1], sp[2]) or (o[0], o[1], o[2]) != (mo[0], mo[1], mo[2]):
+            bad.append(k)
+        if o[3]:
+            early.append(k)
+    ctx.oblige('correspondence:rtu-server-task-loop', not bad, f'{len(bad)} of {len(scs)} scenarios differ')
+    ctx.oblige('rtu-server-task:nothing-answered-before-the-wait-is-over', not early, f'{len(early)} scenarios')
+    for k in (bad + early)[:1]:
+        ctx.violation('server.rtu-task-loop', 'RTU server task loop differs from the reference: ' + srv.rtu_scenario_line(scs[k])[:300],
+                      {'harness_line': srv.rtu_scenario_line(scs[k]), 'impl': impl[k], 'model': both[k][0], 'spec': both[k][1],
+                       'answered-before-the-wait-was-over': bool(norm[k][3])})
+    n_wait_cmds = sum(1 for sc in scs for ph in sc[3] if ph[0] != 'open' and ph[1])
+    n_probe = sum(1 for sc in scs for ph in sc[3] if ph[0] == 'wait' and ph[2] is not None)
+    n_done = sum(1 for o in norm if o[2] == 'done')
+    if not ctx.quick():
+        ctx.oblige('rtu-scenarios-reach-expected-classes', n_wait_cmds >= 5 and n_probe >= 5 and n_done >= 5, f'{n_wait_cmds} {n_probe} {n_done}')
+    return {'rtu-task-scenarios': len(scs), 'rtu-task:waits-with-level-changes': n_wait_cmds, 'rtu-task:early-probes': n_probe, 'rtu-task:ended-by-shutdown': n_done}
 
 
 def run(ctx):
@@ -105,6 +135,7 @@ def run(ctx):
     if not ctx.replay:
         extra['rtu-unknown-function-sessions'] = rtu_unknown_function(ctx)
         extra.update(command_pass(ctx))
+        extra.update(rtu_task_pass(ctx))
         if not ctx.quick():
             extra['loopback-tcp-sessions'] = loopback_pass(ctx, cases, both)
     cl = srv.coverage(ctx, cases, impl,
